@@ -340,6 +340,12 @@ func (so *stateObject) deepCopy(db *StateDB) *stateObject {
 	stateObject.suicided = so.suicided
 	stateObject.dirtyCode = so.dirtyCode
 	stateObject.deleted = so.deleted
+	// the delegator-side index: an uncommitted list exists only here (its blob is written at Commit)
+	if so.delegations != nil {
+		stateObject.delegations = make(common.SortedAddresses, len(so.delegations))
+		copy(stateObject.delegations, so.delegations)
+	}
+	stateObject.dirtyDlgs = so.dirtyDlgs
 	return stateObject
 }
 
